@@ -305,4 +305,293 @@ theorem Response.decode_spec (m : Spec.RspMeaning) (hf : m.fits) (hs : InScopeRs
       simp [Response.sem, C18.value_new, Spec.RspMeaning.padded]⟩
 
 
+
+/-! ### responses built through the constructors: encodability, image, length, oversize -/
+
+theorem Rsp.fromBools_ok {bs : List Bool} {t : Bytes} {c : Coils} (h : Coils.fromBools bs t = .ok c) :
+    bs ≠ [] ∧ packedCoilsLen bs.length ≤ t.length ∧
+    c = ⟨Spec.packBits bs ++ t.drop (packedCoilsLen bs.length), bs.length⟩ := by
+  rw [C16.from_bools_total] at h
+  split at h
+  · simp at h
+  · rename_i hc
+    cases h
+    exact ⟨fun e => hc (Or.inl e), by omega, rfl⟩
+
+theorem Rsp.fromWords_ok {ws : List UInt16} {t : Bytes} {d : Data} (h : Data.fromWords ws t = .ok d) :
+    ws ≠ [] ∧ d = ⟨Spec.wordsBE ws, ws.length⟩ := by
+  rw [C17.from_words_total] at h
+  split at h
+  · simp at h
+  · rename_i hc
+    cases h
+    exact ⟨fun e => hc (Or.inl e), rfl⟩
+
+theorem Rsp.length_pos {α} {l : List α} (h : l ≠ []) : 1 ≤ l.length := by
+  cases l with
+  | nil => exact absurd rfl h
+  | cons _ _ => simp
+
+/-- for a response built through the constructors, "the encoder can serialise it" is exactly
+    "the payload's byte count fits the one-byte count field" -/
+theorem BuiltRsp.encodable_iff {r : Response} {m : Spec.RspMeaning} (hb : BuiltRsp r m) :
+    r.Encodable ↔ m.fits := by
+  cases hb with
+  | readCoils h =>
+    obtain ⟨hne, hl, rfl⟩ := Rsp.fromBools_ok h
+    have := Rsp.length_pos hne
+    simp only [Response.Encodable, Spec.RspMeaning.fits, Coils.packedLen, List.length_append, packBits_length,
+      List.length_drop, packedCoilsLen] at *
+    omega
+  | readDiscreteInputs h =>
+    obtain ⟨hne, hl, rfl⟩ := Rsp.fromBools_ok h
+    have := Rsp.length_pos hne
+    simp only [Response.Encodable, Spec.RspMeaning.fits, Coils.packedLen, List.length_append, packBits_length,
+      List.length_drop, packedCoilsLen] at *
+    omega
+  | readHoldingRegisters h =>
+    obtain ⟨hne, rfl⟩ := Rsp.fromWords_ok h
+    have := Rsp.length_pos hne
+    simp only [Response.Encodable, Spec.RspMeaning.fits, Data.len, wordsBE_length]
+    omega
+  | readInputRegisters h =>
+    obtain ⟨hne, rfl⟩ := Rsp.fromWords_ok h
+    have := Rsp.length_pos hne
+    simp only [Response.Encodable, Spec.RspMeaning.fits, Data.len, wordsBE_length]
+    omega
+  | readWriteMultipleRegisters h =>
+    obtain ⟨hne, rfl⟩ := Rsp.fromWords_ok h
+    have := Rsp.length_pos hne
+    simp only [Response.Encodable, Spec.RspMeaning.fits, Data.len, wordsBE_length]
+    omega
+  | writeSingleCoil a => simp [Response.Encodable, Spec.RspMeaning.fits]
+  | writeSingleRegister a w => simp [Response.Encodable, Spec.RspMeaning.fits]
+  | writeMultipleCoils a q => simp [Response.Encodable, Spec.RspMeaning.fits]
+  | writeMultipleRegisters a q => simp [Response.Encodable, Spec.RspMeaning.fits]
+  | custom fc d => simp [Response.Encodable, Spec.RspMeaning.fits]
+
+/-- the wire image is the specification's PDU of the meaning, for EVERY payload size — with the one
+    exception of Write Single Coil (D12) -/
+theorem BuiltRsp.image_eq {r : Response} {m : Spec.RspMeaning} (hb : BuiltRsp r m)
+    (hn : ∀ a, m ≠ .writeSingleCoil a) : r.image = Spec.rspBytes m := by
+  cases hb with
+  | readCoils h => exact (C16.built_coils_image _ _ _ 0 h).2.1
+  | readDiscreteInputs h => exact (C16.built_coils_image _ _ _ 0 h).2.2
+  | readHoldingRegisters h =>
+    obtain ⟨_, rfl⟩ := Rsp.fromWords_ok h; exact C17.rsp_read_holding_registers_image _
+  | readInputRegisters h =>
+    obtain ⟨_, rfl⟩ := Rsp.fromWords_ok h; exact C17.rsp_read_input_registers_image _
+  | readWriteMultipleRegisters h =>
+    obtain ⟨_, rfl⟩ := Rsp.fromWords_ok h; exact C17.rsp_read_write_multiple_registers_image _
+  | writeSingleCoil a => exact absurd rfl (hn a)
+  | writeSingleRegister a w => rfl
+  | writeMultipleCoils a q => rfl
+  | writeMultipleRegisters a q => rfl
+  | custom fc d => rfl
+
+/-- `pdu_len` is defined for every built response (any payload size) and is the image's length -/
+theorem BuiltRsp.pduLen_eq {r : Response} {m : Spec.RspMeaning} (hb : BuiltRsp r m) :
+    r.pduLen = .ok r.image.length := by
+  cases hb with
+  | readCoils h =>
+    obtain ⟨_, hl, rfl⟩ := Rsp.fromBools_ok h
+    simp only [Response.pduLen, Response.image, Coils.packedLen, List.length_append, List.length_take,
+      packBits_length, List.length_drop, List.length_cons, List.length_nil]
+    congr 1; omega
+  | readDiscreteInputs h =>
+    obtain ⟨_, hl, rfl⟩ := Rsp.fromBools_ok h
+    simp only [Response.pduLen, Response.image, Coils.packedLen, List.length_append, List.length_take,
+      packBits_length, List.length_drop, List.length_cons, List.length_nil]
+    congr 1; omega
+  | readHoldingRegisters h =>
+    obtain ⟨_, rfl⟩ := Rsp.fromWords_ok h
+    simp only [Response.pduLen, Response.image, Data.len, List.length_append, List.length_take,
+      wordsBE_length, List.length_cons, List.length_nil]
+    congr 1; omega
+  | readInputRegisters h =>
+    obtain ⟨_, rfl⟩ := Rsp.fromWords_ok h
+    simp only [Response.pduLen, Response.image, Data.len, List.length_append, List.length_take,
+      wordsBE_length, List.length_cons, List.length_nil]
+    congr 1; omega
+  | readWriteMultipleRegisters h =>
+    obtain ⟨_, rfl⟩ := Rsp.fromWords_ok h
+    simp only [Response.pduLen, Response.image, Data.len, List.length_append, List.length_take,
+      wordsBE_length, List.length_cons, List.length_nil]
+    congr 1; omega
+  | writeSingleCoil a => rfl
+  | writeSingleRegister a w => rfl
+  | writeMultipleCoils a q => rfl
+  | writeMultipleRegisters a q => rfl
+  | custom fc d => simp [Response.pduLen, Response.image]; omega
+
+theorem BuiltRsp.image_pos {r : Response} {m : Spec.RspMeaning} (hb : BuiltRsp r m) : 1 ≤ r.image.length := by
+  cases hb <;> simp [Response.image]
+
+theorem Rsp.applyWrites_head1 (buf : Bytes) (fc : UInt8) (h : 1 ≤ buf.length) :
+    applyWrites buf [(0, [fc])] = .ok (fc :: buf.drop 1) := by
+  have := applyWrites_from_zero [(0, [fc])] buf (by simp [Tiled]) (by simpa [segBytes] using h)
+  simpa [segBytes] using this
+
+theorem Rsp.u8TryFrom_big {n : Nat} (h : 255 < n) : u8TryFrom n = .err .bufferSize := by
+  simp [u8TryFrom]; omega
+
+/-- a coil payload of more than 255 bytes is refused with `BufferSize`, whatever the buffer -/
+theorem Response.encode_readCoils_big (c : Coils) (buf : Bytes) (h : 255 < c.packedLen) :
+    (Response.readCoils c).encode buf = .err .bufferSize := by
+  simp only [Response.encode, Response.pduLen, Res.bind'_ok]
+  split
+  · rfl
+  · rw [Rsp.applyWrites_head1 _ _ (by omega)]
+    simp only [Res.bind'_ok, Rsp.u8TryFrom_big h, Res.bind'_err]
+
+theorem Response.encode_readDiscreteInputs_big (c : Coils) (buf : Bytes) (h : 255 < c.packedLen) :
+    (Response.readDiscreteInputs c).encode buf = .err .bufferSize := by
+  simp only [Response.encode, Response.pduLen, Res.bind'_ok]
+  split
+  · rfl
+  · rw [Rsp.applyWrites_head1 _ _ (by omega)]
+    simp only [Res.bind'_ok, Rsp.u8TryFrom_big h, Res.bind'_err]
+
+theorem Response.encode_readHoldingRegisters_big (d : Data) (buf : Bytes) (h : 255 < d.len * 2) :
+    (Response.readHoldingRegisters d).encode buf = .err .bufferSize := by
+  simp only [Response.encode, Response.pduLen, Res.bind'_ok]
+  split
+  · rfl
+  · rw [Rsp.applyWrites_head1 _ _ (by omega)]
+    simp only [Res.bind'_ok, Rsp.u8TryFrom_big h, Res.bind'_err]
+
+theorem Response.encode_readInputRegisters_big (d : Data) (buf : Bytes) (h : 255 < d.len * 2) :
+    (Response.readInputRegisters d).encode buf = .err .bufferSize := by
+  simp only [Response.encode, Response.pduLen, Res.bind'_ok]
+  split
+  · rfl
+  · rw [Rsp.applyWrites_head1 _ _ (by omega)]
+    simp only [Res.bind'_ok, Rsp.u8TryFrom_big h, Res.bind'_err]
+
+theorem Response.encode_readWriteMultipleRegisters_big (d : Data) (buf : Bytes) (h : 255 < d.len * 2) :
+    (Response.readWriteMultipleRegisters d).encode buf = .err .bufferSize := by
+  simp only [Response.encode, Response.pduLen, Res.bind'_ok]
+  split
+  · rfl
+  · rw [Rsp.applyWrites_head1 _ _ (by omega)]
+    simp only [Res.bind'_ok, Rsp.u8TryFrom_big h, Res.bind'_err]
+
+/-- a built response whose payload does not fit the count field is refused with `BufferSize` by the
+    encoder, for every output buffer: no wrapped count, no truncated payload, no panic -/
+theorem BuiltRsp.encode_oversize {r : Response} {m : Spec.RspMeaning} (hb : BuiltRsp r m) (hf : ¬ m.fits)
+    (buf : Bytes) : r.encode buf = .err .bufferSize := by
+  cases hb with
+  | readCoils h =>
+    obtain ⟨hne, _, rfl⟩ := Rsp.fromBools_ok h
+    have := Rsp.length_pos hne
+    apply Response.encode_readCoils_big
+    simp only [Spec.RspMeaning.fits] at hf
+    simp only [Coils.packedLen, packedCoilsLen]; omega
+  | readDiscreteInputs h =>
+    obtain ⟨hne, _, rfl⟩ := Rsp.fromBools_ok h
+    have := Rsp.length_pos hne
+    apply Response.encode_readDiscreteInputs_big
+    simp only [Spec.RspMeaning.fits] at hf
+    simp only [Coils.packedLen, packedCoilsLen]; omega
+  | readHoldingRegisters h =>
+    obtain ⟨hne, rfl⟩ := Rsp.fromWords_ok h
+    have := Rsp.length_pos hne
+    apply Response.encode_readHoldingRegisters_big
+    simp only [Spec.RspMeaning.fits] at hf
+    simp only [Data.len]; omega
+  | readInputRegisters h =>
+    obtain ⟨hne, rfl⟩ := Rsp.fromWords_ok h
+    have := Rsp.length_pos hne
+    apply Response.encode_readInputRegisters_big
+    simp only [Spec.RspMeaning.fits] at hf
+    simp only [Data.len]; omega
+  | readWriteMultipleRegisters h =>
+    obtain ⟨hne, rfl⟩ := Rsp.fromWords_ok h
+    have := Rsp.length_pos hne
+    apply Response.encode_readWriteMultipleRegisters_big
+    simp only [Spec.RspMeaning.fits] at hf
+    simp only [Data.len]; omega
+  | writeSingleCoil a => exact absurd trivial hf
+  | writeSingleRegister a w => exact absurd trivial hf
+  | writeMultipleCoils a q => exact absurd trivial hf
+  | writeMultipleRegisters a q => exact absurd trivial hf
+  | custom fc d => exact absurd trivial hf
+
+/-- the encoder's whole outcome on a built response that fits: `BufferSize` when the buffer is shorter
+    than the PDU, otherwise the image followed by the untouched rest of the buffer -/
+theorem BuiltRsp.encode_fits {r : Response} {m : Spec.RspMeaning} (hb : BuiltRsp r m) (hf : m.fits)
+    (buf : Bytes) :
+    r.encode buf = if buf.length < r.image.length then .err .bufferSize
+      else .ok (r.image.length, r.image ++ buf.drop r.image.length) :=
+  Response.encode_eq r buf (hb.encodable_iff.mpr hf)
+
+/-- the crate's own three-byte Write Single Coil response is read back by the decoder -/
+theorem Response.decode_image_writeSingleCoil (a : UInt16) :
+    Response.decode (Response.writeSingleCoil a).image = .ok (.writeSingleCoil a) := by
+  simp only [Response.image, be16, List.cons_append, List.nil_append]
+  rw [Response.decode_writeSingleCoil, rd16_be16]
+
+/-- decoding the image of a built response that fits gives back the meaning (coil reads padded) -/
+theorem BuiltRsp.decode_image {r : Response} {m : Spec.RspMeaning} (hb : BuiltRsp r m) (hf : m.fits)
+    (hs : InScopeRsp m) : ∃ r', Response.decode r.image = .ok r' ∧ r'.sem = some m.padded := by
+  by_cases hn : ∀ a, m ≠ .writeSingleCoil a
+  · rw [hb.image_eq hn]; exact Response.decode_spec m hf hs
+  · cases hb with
+    | writeSingleCoil a => exact ⟨_, Response.decode_image_writeSingleCoil a, rfl⟩
+    | _ => exact absurd (fun a h => by cases h) hn
+
+
+
+/-! ### exception responses -/
+
+/-- arithmetic of the exception marker, for every function code below 0x80 (all 128 instances) -/
+theorem Rsp.exc_marker (f : UInt8) (hf : f < 0x80) : ¬ (f + 0x80 < 0x80) ∧ f + 0x80 - 0x80 = f := by
+  revert f
+  apply byte_cases
+  decide +kernel
+
+/-- arithmetic of the marker on the decoding side, for every first byte ≥ 0x80 -/
+theorem Rsp.exc_unmarker (c : UInt8) (hc : ¬ c < 0x80) : c - 0x80 < 0x80 ∧ c - 0x80 + 0x80 = c := by
+  revert c
+  apply byte_cases
+  decide +kernel
+
+/-- the exception decoder on any input of at least two bytes (anything after them is ignored) -/
+theorem ExceptionResponse.decode_cons (c code : UInt8) (rest : Bytes) :
+    ExceptionResponse.decode (c :: code :: rest) =
+      if c < 0x80 then .err (.exceptionFnCode c)
+      else (Exception.tryFrom code).bind fun ex => .ok ⟨FunctionCode.new (c - 0x80), ex⟩ := by
+  have hl : ¬ ((c :: code :: rest).length < 2) := by simp only [List.length_cons]; omega
+  simp only [ExceptionResponse.decode, hl, if_false, idx, List.getElem?_cons_zero, List.getElem?_cons_succ,
+    Res.bind'_ok]
+
+theorem ExceptionResponse.decode_short (b : Bytes) (h : b.length < 2) :
+    ExceptionResponse.decode b = .err .bufferSize := by
+  simp [ExceptionResponse.decode, h]
+
+/-- decoding the specification's exception PDU of function `f < 0x80` and exception `k` -/
+theorem ExceptionResponse.decode_spec (f : UInt8) (hf : f < 0x80) (k : Exception) (rest : Bytes) :
+    ExceptionResponse.decode ((f + 0x80) :: k.val :: rest) = .ok ⟨FunctionCode.new f, k⟩ := by
+  obtain ⟨h1, h2⟩ := Rsp.exc_marker f hf
+  rw [ExceptionResponse.decode_cons, if_neg h1, C18.exception_roundtrip, h2]
+  rfl
+
+/-- `Exception::val` enumerates exactly the nine codes of the specification -/
+theorem Rsp.exception_val_mem (k : Exception) : k.val ∈ Spec.excCodes := by
+  cases k <;> decide
+
+theorem Rsp.exception_of_code (code : UInt8) (h : code ∈ Spec.excCodes) : ∃ k : Exception, k.val = code := by
+  simp only [Spec.excCodes, List.mem_cons, List.not_mem_nil, or_false] at h
+  rcases h with h | h | h | h | h | h | h | h | h <;> subst h
+  · exact ⟨.illegalFunction, rfl⟩
+  · exact ⟨.illegalDataAddress, rfl⟩
+  · exact ⟨.illegalDataValue, rfl⟩
+  · exact ⟨.serverDeviceFailure, rfl⟩
+  · exact ⟨.acknowledge, rfl⟩
+  · exact ⟨.serverDeviceBusy, rfl⟩
+  · exact ⟨.memoryParityError, rfl⟩
+  · exact ⟨.gatewayPathUnavailable, rfl⟩
+  · exact ⟨.gatewayTargetDevice, rfl⟩
+
+
 end Modbus
